@@ -442,6 +442,11 @@ func (g *golden) names(o *old.DB, c *sod.DB, who string) {
 func RunGolden(p Params) *Result {
 	r := simrt.NewRand(simrt.Mix(p.Seed, 11))
 	cfg := &Config{Compress: r.Chance(1, 2), Lower: r.Chance(1, 2), Ext: exts[r.Intn(len(exts))], Cache: r.Chance(1, 2), Cons: map[string]model.Cons{}}
+	if cfg.Ext == "" {
+		// the pinned release panics on a directory entry without a dot (repaired in the
+		// current tree, 86beb37): an empty extension is not a configuration it supports
+		cfg.Ext = ".json"
+	}
 	if !cfg.Compress && strings.HasSuffix(cfg.Ext, ".gz") {
 		// the pinned release cannot read its own uncompressed files under an extension that
 		// ends with .gz (it sniffs compression from the suffix; repaired in the current tree):
